@@ -240,6 +240,21 @@ theorem served_follow_up_in_any_handler_history (M ttl : Nat) (evs : List Ev) (h
       resp'.payload = (cached.payload.drop (b2.num * b2.size)).take (2 ^ (min b2.szx b.szx + 4)) :=
   Block.served_follow_up_in_any_handler_history M ttl evs hm e hreq hlate req1 req' st1 st' b2
 
+/-! non-vacuity, through the cores: budget 64, a 200-byte body – the handler negotiates 32-byte blocks and
+stores exponent 1; a follow-up asking for block 0 at size 1024 (`Block2 = 0x06`) is served from the cache
+with 32 payload bytes -/
+private def exBody : Bytes := List.replicate 200 0x41
+private def exReq0 : Request :=
+  { message := { Packet.new with options := [(11, [[0x74]])] },
+    response := some { Packet.new with payload := exBody }, source := some 1 }
+private def exFollowUp : Request :=
+  { message := { Packet.new with options := [(11, [[0x74]]), (23, [[0x06]])] },
+    response := some Packet.new, source := some 1 }
+example : (coreResponse 64 exReq0 BlockState.default).2.1.cachedSzx = some 1 := by decide +kernel
+example : (coreRequest 64 exFollowUp (coreResponse 64 exReq0 BlockState.default).2.1).2.2 = .ok true ∧
+    (coreRequest 64 exFollowUp (coreResponse 64 exReq0 BlockState.default).2.1).1.response.map
+      (·.payload.length) = some 32 := by decide +kernel
+
 /-- renumbering: block 1 at size 1024 under a negotiated size of 32 is block 32 at size 32; a number that
 no longer fits 20 bits is refused (4.00) -/
 example : clampBlock { num := 1, more := false, szx := 6 } (some 1) =
